@@ -13,14 +13,15 @@ import "github.com/cloudwego/dynamicgo/thrift"
 func init() {
 	base16 := generators["C16"]
 	generators["C16"] = func(r *rng, n int) {
+		g := g2cRng(r)
+		genConvertRequireness(g)
+		genMarkedDecisions(g, 1693)
 		base16(r, n)
-		genConvertRequireness(r)
-		genMarkedDecisions(r, 1693)
 	}
 	base11 := generators["C11"]
 	generators["C11"] = func(r *rng, n int) {
+		genMarkedDecisions(g2cRng(r), 1193)
 		base11(r, n)
-		genMarkedDecisions(r, 1193)
 	}
 }
 
